@@ -348,7 +348,7 @@ func runC09(t *testing.T, seed uint64, planJSON []byte, tier string) (res *Resul
 		}
 		acts = append(acts, a)
 	}
-	res.Harness = runBubble(t, func(t *testing.T) {
+	res.Harness = runBubbleP(t, plan, func(t *testing.T) {
 		r := setupAT(seed, tape, plan, "C09", res)
 		if r == nil {
 			return
